@@ -183,8 +183,10 @@ def gen_steps(rng, ids, max_id, nsteps, with_page=True, stream=False):
                 ops.append(L('setkey', OID(i, 0), xb(rng.choice([b'K', b'Type', b'V'])), histgen.o_sx(rnd_obj(rng, ids))))
             elif k < 0.85 and with_page:
                 ops.append(L('res', OID(rng.choice([3, 3, 3, 1, max_id + 9]), 0)))
-            elif with_page:
+            elif with_page and rng.random() < 0.7:
                 ops.append(L('xobj', OID(rng.choice([3, 3, 3, 2]), 0), xb(rng.choice([b'Im1', b'Im2', b'Old'])), OID(rng.choice(ids), 0)))
+            elif with_page:
+                ops.append(L('gs', OID(rng.choice([3, 3, 3, 2]), 0), xb(rng.choice([b'GS1', b'GS2'])), OID(rng.choice(ids), 0)))
             else:
                 ops.append(L('add', I(1)))
                 max_id += 1
@@ -205,6 +207,98 @@ def gen_inc_case(rng, big=False):
     steps = gen_steps(rng, ids, loaded_max, rng.randint(1, 3), stream=(style == 'stream'))
     kind = 'inc-' + style + ('-junk' if junk else '') + ('-big' if big else '')
     return (L('inc', doc, style, xb(junk), steps), {'kind': kind, 'nontrivial': True, 'class': []})
+
+
+def gen_resseq_case(rng, fixed=None):
+    """seeded defect C07/p3: several pages SHARE an indirect Resources object; inside ONE update a page is copied and its
+    Resources changed (pointed to a new private resources object, or inlined; by setkey or by replacing the whole page), THEN
+    add_xobject / add_graphics_state / get_or_create_resources is called for it.  Controls: the helper on the untouched
+    page, twice in a row, on the sibling, on a page that inherits, re-pointing in an EARLIER update."""
+    r = rng.random
+    shape = fixed or rng.choice(['ref', 'ref', 'ref', 'refref', 'inherit-ref'])
+    shared = [('ProcSet', A([N('PDF')])), ('XObject', D([('Old', REF(1, 0))]))]
+    if r() < 0.5:
+        shared.append(('ExtGState', D([('G0', REF(1, 0))])))
+    if r() < 0.3:
+        shared.append(('Font', D([('F1', REF(2, 0))])))
+    npages = rng.choice([2, 2, 3])
+    pages = [3, 6, 7][:npages]
+    objs = {1: D([('Type', N('Catalog')), ('Pages', REF(2, 0))])}
+    pages_node = [('Type', N('Pages')), ('Kids', A([REF(i, 0) for i in pages])), ('Count', I(npages))]
+    if shape == 'inherit-ref':
+        pages_node.append(('Resources', REF(4, 0)))
+    objs[2] = D(pages_node)
+    objs[4] = D(shared)
+    if shape == 'refref':
+        objs[4] = REF(5, 0); objs[5] = D(shared)
+    for i in pages:
+        page = [('Type', N('Page')), ('Parent', REF(2, 0)), ('MediaBox', A([I(0), I(0), I(200 + i), I(300)]))]
+        if shape != 'inherit-ref' or (i != 3 and r() < 0.3):
+            page.append(('Resources', REF(4, 0)))
+        objs[i] = D(page)
+    nxt = 8
+    for _ in range(rng.randint(0, 2)):
+        objs[nxt] = histgen.o_sx(rnd_top(rng, list(objs))); nxt += 1
+    ids = sorted(objs)
+    max_id = max(ids)
+    style = rng.choice(['table', 'stream'])
+    doc = DOC(rng.choice(['1.4', '1.5', '1.7']), rng.choice([b'\xe2\xe3\xcf\xd3', b'']), [('Root', REF(1, 0))],
+              [((i, 0), objs[i]) for i in ids], max_id)
+    top = max_id + 1 if style == 'stream' else max_id       # the loaded max_id
+
+    def helper(page):
+        k = r()
+        name_x = rng.choice([b'Im1', b'Im2', b'Old'])
+        name_g = rng.choice([b'GS1', b'G0'])
+        if k < 0.5: return L('xobj', OID(page, 0), xb(name_x), OID(rng.choice(ids), 0))
+        if k < 0.9: return L('gs', OID(page, 0), xb(name_g), OID(rng.choice(ids), 0))
+        return L('res', OID(page, 0))
+
+    def private(page):
+        """edits that give `page` resources of its own; returns (ops, number of objects added)"""
+        own = [('XObject', D([('Mine', REF(1, 0))]))] if r() < 0.5 else ([('ExtGState', D([]))] if r() < 0.5 else [])
+        pd = [('Type', N('Page')), ('Parent', REF(2, 0)), ('MediaBox', A([I(0), I(0), I(200 + page), I(300)]))]
+        k = r()
+        if k < 0.35:      # a new private resources object, the entry re-pointed
+            return [L('add', D(own)), L('setkey', OID(page, 0), xb(b'Resources'), REF(top + 1, 0))], 1
+        if k < 0.55:      # ... the whole page replaced
+            return [L('add', D(own)), L('set', OID(page, 0), D(pd + [('Resources', REF(top + 1, 0))]))], 1
+        if k < 0.8:       # inlined
+            return [L('setkey', OID(page, 0), xb(b'Resources'), D(own))], 0
+        if k < 0.9:
+            return [L('set', OID(page, 0), D(pd + [('Resources', D(own))]))], 0
+        # pointed to another EXISTING resources object that is added first under a fresh number, through a reference object
+        return [L('add', D(own)), L('add', REF(top + 1, 0)), L('setkey', OID(page, 0), xb(b'Resources'), REF(top + 1, 0))], 2
+
+    seq = rng.choice(['private-then-helper'] * 5 + ['helper-only', 'helper-twice', 'private-earlier-update', 'sibling-first'])
+    page = rng.choice(pages)
+    other = rng.choice([q for q in pages if q != page])
+    steps = []
+    if seq == 'private-then-helper':
+        ops, _ = private(page)
+        ops.append(helper(page))
+        if r() < 0.4: ops.append(helper(page))
+        if r() < 0.4: ops.append(helper(other))
+        steps.append(L('step', *ops))
+    elif seq == 'sibling-first':
+        ops = [helper(other)]
+        pops, _ = private(page)
+        ops += pops + [helper(page), helper(other)]
+        steps.append(L('step', *ops))
+    elif seq == 'helper-only':
+        steps.append(L('step', helper(page)))
+    elif seq == 'helper-twice':
+        steps.append(L('step', helper(page), helper(other), helper(page)))
+    else:
+        ops, n = private(page)
+        steps.append(L('step', *ops))
+        top += n + (1 if style == 'stream' else 0)
+        steps.append(L('step', helper(page), helper(other)))
+    if r() < 0.3:
+        steps.append(L('step', helper(rng.choice(pages))))
+    junk = b'junk %PD\n' if r() < 0.2 else b''
+    return (L('inc', doc, style, xb(junk), L('steps', *steps)),
+            {'kind': 'inc-resseq-' + seq + '-' + shape, 'nontrivial': True, 'class': []})
 
 
 def gen_incraw_case(rng):
@@ -291,6 +385,11 @@ def gen_cases(rng, tier):
         cases.append(gen_inc_case(rng, big=(k % 30 == 7)))
     for k in range(n // 2):
         cases.append(gen_incraw_case(rng))
+    # seeded defect C07/p3: a page's Resources changed inside the update, then add_xobject / add_graphics_state for it
+    for shape in ('ref', 'refref', 'inherit-ref'):
+        cases.append(gen_resseq_case(rng, fixed=shape))
+    for k in range(n // 2):
+        cases.append(gen_resseq_case(rng))
     return cases
 
 
@@ -316,7 +415,7 @@ SPEC = {
             'the header) assembled byte by byte by gen/histgen.py, EVERY prefix loaded and compared with latest-revision-wins and with '
             'the abstract loader model (merged table, trailer, max_id, objects); random base documents saved by lopdf (table/stream, '
             'optionally prefixed with junk, some > 64 KiB) and hand-assembled histories, then 1-3 update steps (set/add/clone/setkey/'
-            'get_or_create_resources/add_xobject) replayed through IncrementalDocument with save_to + reload after each step, output '
+            'get_or_create_resources/add_xobject/add_graphics_state; plus edit sequences on pages sharing an indirect Resources object: its Resources entry re-pointed or inlined inside the update, then the helpers) replayed through IncrementalDocument with save_to + reload after each step, output '
             'compared byte for byte with the model; non-trivial = at least 2 revisions or any replay',
     'partial_note': 'Byte level (Model/Loader.v) for histories written by lopdf itself, both cross-reference formats, any number of '
                     'updates: load (inc_save ..) = overlay, every file of a history satisfies the chain invariant and can be updated '
